@@ -54,6 +54,21 @@ type fail struct {
 	class, detail string
 }
 
+// watchCtx is the run whose library calls are watched for hangs (kit.Enter/Leave).
+var watchCtx *kit.Ctx
+
+func enter(class, key string, trace interface{}, detail string) {
+	if watchCtx != nil {
+		watchCtx.Enter(func() kit.HangInfo { return kit.HangInfo{Class: class, Key: key, Detail: detail, Trace: trace} })
+	}
+}
+
+func leave() {
+	if watchCtx != nil {
+		watchCtx.Leave()
+	}
+}
+
 // shape is one (field, k, r) code actually used by a symbology.
 type shape struct {
 	f    *gf.Field
@@ -235,7 +250,10 @@ func prepare(tr *Trace04, probe func(string)) (pw *prepared, f *fail) {
 	}
 	word := make([]int, n)
 	copy(word, tr.Data)
-	if err := rs.NewReedSolomonEncoder(lf).Encode(word, tr.R); err != nil {
+	enter("enc/hang", "enc/hang/"+tr.Field, tr, "ReedSolomonEncoder.Encode")
+	err := rs.NewReedSolomonEncoder(lf).Encode(word, tr.R)
+	leave()
+	if err != nil {
 		return nil, &fail{"enc/error", fmt.Sprintf("Encode(k=%d,r=%d) returned %v", tr.K, tr.R, err)}
 	}
 	for i := 0; i < tr.K; i++ {
@@ -299,7 +317,9 @@ func (pw *prepared) attempt(errors [][2]int, probe func(string)) (f *fail) {
 	default:
 		probe("fault.symbol_errors_below_t")
 	}
+	enter("dec/hang", "dec/hang/"+pw.rf.Name, &Trace04{Kind: "tx", Field: pw.rf.Name, K: pw.k, R: pw.r, Data: pw.sent[:pw.k], Errors: errors}, "ReedSolomonDecoder.Decode")
 	err := rs.NewReedSolomonDecoder(pw.lf).Decode(word, pw.r)
+	leave()
 	if err != nil {
 		if nerr == 0 {
 			return &fail{"dec/passthrough", fmt.Sprintf("undamaged word rejected: %v", err)}
@@ -603,6 +623,7 @@ func C04() *kit.Spec {
 		Run: func(c *kit.Ctx) {
 			j := jobs(c.Tier)[c.Run]
 			r := c.RNG
+			watchCtx = c
 			t0 := time.Now() // reporting only, never a decision input
 			defer func() {
 				name := j.kind
@@ -763,6 +784,7 @@ func C04() *kit.Spec {
 				c.Fatal("bad trace: " + err.Error())
 				return
 			}
+			watchCtx = c
 			switch tr.Kind {
 			case "tx":
 				if f := transmit(tr, func(string) {}); f != nil {
